@@ -148,6 +148,33 @@ def w_many(ctx, rng, idx):
         ctx.sample({'workload': 'many_snapshots', 'state_dim': d, 'snapshots': m, 'modes': [[type(f).__name__ for f in fl] for fl in bl], 'reversible': rev})
 
 
+def w_ill(ctx, rng, idx):
+    """smooth but poorly conditioned bases (monomials up to degree 3-5 on an interval away from 0, in two modes): the transformed data
+    matrix has condition numbers of 1e4..1e9 - far from rank deficiency in double precision; no cut (threshold 0) or a tiny relative cut"""
+    d = int(rng.integers(1, 3))
+    d2 = d if rng.random() < 0.5 else int(rng.integers(1, 3))
+    deg = [int(rng.integers(2, 6)) for _ in range(2)]
+    bl = [[tr.Monomial(int(rng.integers(0, d)) if k else 0, e, dimension=d) for e in range(deg[k] + 1)] for k in range(2)]
+    if d == 2:
+        bl[1] = [tr.Monomial(1, e, dimension=d) for e in range(deg[1] + 1)]
+    N = int(np.prod([len(f) for f in bl]))
+    m = int(rng.integers(N + 4, N + 40))
+    lo = float(rng.uniform(0.1, 0.5))
+    X = rng.uniform(lo, lo + 1.0, size=(d, m))
+    sigma = rng.standard_normal((d, d2, m))
+    rev = bool(idx % 2)
+    b = None if rev else rng.standard_normal((d, m))
+    w = rng.uniform(0.5, 2.0, size=m) if rng.random() < 0.5 else None
+    thr, rel = [(0.0, False), (1e-13, True), (0.0, True)][int(rng.integers(0, 3))]
+    ctx.describe({'op': 'tgedmd.amuset_hosvd', 'd': d, 'd2': d2, 'm': m, 'degrees': deg, 'reversible': rev, 'reweight': w is not None, 'threshold': thr, 'rel': rel})
+    monitors_basis.STRIDE[0] = 7
+    try:
+        call('tgedmd.amuset_hosvd', quiet, tg.amuset_hosvd, X, bl, sigma, prop=P, tags=['reversible' if rev else 'nonreversible', 'poorly_conditioned_basis'], refusals=(np.linalg.LinAlgError,),
+             b=b, reweight=w, num_eigvals=np.inf, threshold=thr, return_option='eigenfunctionevals', rel_threshold=rel)
+    finally:
+        monitors_basis.STRIDE[0] = 1
+
+
 def w_failpoint(ctx, rng, idx):
     """the same workload with the default SVD driver failing (LinAlgError injected at the LAPACK boundary before the input is touched):
     utils.truncated_svd must take its gesvd fallback and every clause must still hold"""
@@ -163,6 +190,7 @@ WORKLOADS = [
     Workload('amuset', w_amuset, 160, 3000),
     Workload('failpoint', w_failpoint, 30, 500),
     Workload('many_snapshots', w_many, 1, 6),
+    Workload('poorly_conditioned', w_ill, 12, 200),
 ]
 REQUIRED = ['C19|tgedmd.generator_on_product:equals_generator_applied_to_product', 'C19|tgedmd.generator_on_product_reversible:equals_gradient_of_product_dot_sigma_column',
             'C19|tgedmd.amuset_hosvd:eigenvalues_equal_dense_projected_generator']
